@@ -12,11 +12,13 @@ hvars == <<vars, hist>>
 MCEvents == {"e1", "e2", "e3"}
 MCReg == {"e1", "e2"}
 MCPrios == {-1, 0, 5}
+MCSpawns == {NoSpawn, [ev |-> "e1", prio |-> 5], [ev |-> "e2", prio |-> 0]}
+NoSpawns == {NoSpawn}
 
 HInit == Init /\ hist = <<>>
 \* a reduced operation menu keeps the number of sequences enumerable
 HNext == /\ Len(hist) < Depth
-         /\ \/ \E e \in RegEvents, p \in Prios, st \in BOOLEAN : Add(e, p, st)
+         /\ \/ \E e \in RegEvents, p \in Prios, st \in BOOLEAN, sp \in Spawns : Add(e, p, st, sp)
             \/ \E e \in Events : Dispatch(e)
             \/ \E e \in RegEvents : GetListeners(e)
             \/ GetAll
@@ -32,7 +34,8 @@ FullSpec == HInit /\ [][FullNext]_hvars
 \* for Add the arguments are needed to replay; they are recoverable from regs
 Beh == [k \in 1..Len(hist) |->
           IF hist[k].op = "add" THEN [op |-> "add", id |-> hist[k].id, ev |-> regs[hist[k].id].ev,
-                                      prio |-> regs[hist[k].id].prio, stops |-> regs[hist[k].id].stops]
+                                      prio |-> regs[hist[k].id].prio, stops |-> regs[hist[k].id].stops,
+                                      spawn |-> regs[hist[k].id].spawn]
           ELSE hist[k]]
 Emit == Len(hist) = Depth => PrintT(ToJson(Beh))
 DepthBound == Len(hist) <= Depth
